@@ -370,16 +370,16 @@ for _k, _v in _R8.items():
 _R12 = {
     "C02": "; uri judged by the RFC 3986 grammar: control characters in the fragment, percent signs without two hex digits, a second colon in the host, brackets outside an IP literal (definite refusals), percent-encoded characters in a host (definite yes)",
     "C03": "; truth tables: every alternative of an or rule with the probes it admits, the position must accept exactly their union (array rule sets with item counts, types of several JSON kinds named on an example of another kind, key types with an alternative for every string)",
-    "C06": "; two bytes appended to every token value the reader hands out (the text must not change)",
+    "C06": "; bytes appended to every token value the reader hands out and to its views (unquoted, without brackets, trimmed): the text must not change",
     "C07": "; every error that names its own file must pass kit.ConvertError unchanged; AddType with a taken, unprefixed, empty and list-shaped name",
     "C08": "; rule sets without a type whose rules belong to two different kinds (refused)",
-    "C09": "; the same graph with allOf and with the parent's properties written out gets the same verdict (types wired or not); ladders and DAGs with back edges through terminating alternatives (30-44 levels); mutual arrays with minItems 0",
-    "C13": "; block comments over a line break between siblings; annotations behind the opening bracket of empty containers; a block comment between the slashes and the rule object; an empty second annotation; two notes in a row between enum items; 33 rewrite kinds",
+    "C09": "; the same graph with allOf and with the parent's properties written out gets the same verdict (types wired or not); ladders and DAGs with back edges through terminating alternatives (30-44 levels); mutual arrays with minItems 0 or asking for an item that has a terminating alternative; cyclic ladders of 30-44 levels whose alternatives fail at the cut-off (Check, Example, Validate under 20 s guards); every type object knowing exactly the types its text names",
+    "C13": "; block comments over a line break between siblings; annotations behind the opening bracket of empty containers; a block comment between the slashes and the rule object; an empty second annotation; two notes in a row between enum items; block comments opened behind an inline annotation and closed on the next line; 33 rewrite kinds",
     "C14": "; enum texts of comments or blanks only (negative)",
     "C15": "; key shortcuts whose string type refers to other types; arrays whose minItems rule does not reach the item left out at the recursion cut-off",
     "C16": "; an empty second annotation keeps the note; lonely multi-line notes with a second note behind the closer; type: null as a null token; block comments over line breaks and in front of rule objects",
-    "C17": "; a key that none of 2-3 alternative object types knows is reported at the key",
-    "C18": "; patterns whose inner assertions need a line feed or a word character",
+    "C17": "; a key that none of 2-3 alternative object types knows is reported at the key; two hashes that open no comment are reported at the byte behind them",
+    "C18": "; patterns whose inner assertions need a line feed or a word character, two kinds of them in one pattern, a non-word character that is no printable ASCII one",
 }
 for _k, _v in _R12.items():
     PROPS[_k]["rule"] += _v
